@@ -43,6 +43,12 @@ def _mk_const(v):
     return ast.Constant(value=v)
 
 
+def _is_path(e):
+    while isinstance(e, ast.Attribute):
+        e = e.value
+    return isinstance(e, ast.Name)
+
+
 class Fold(ast.NodeTransformer):
     def __init__(self, repo=None, f=None):
         self.changed = False
@@ -141,6 +147,23 @@ class Fold(ast.NodeTransformer):
     def visit_Call(self, n):
         self.generic_visit(n)
         n.args = self._flatten_starred(n.args)
+        if self.repo is not None and isinstance(n.func, ast.Name) and n.func.id[:1].isupper() or (isinstance(n.func, ast.Name) and n.func.id.startswith("_")):
+            from .normalize import complete_record_call
+            if self.repo is not None and complete_record_call(self.repo, self.f.mod, n):
+                self.changed = True
+        # any(T(x) for x in [a, b]) / all(..)  over a literal display of names / paths, T a comparison: T(a) or T(b) / T(a) and T(b)
+        if isinstance(n.func, ast.Name) and n.func.id in ("any", "all") and len(n.args) == 1 and not n.keywords and isinstance(n.args[0], (ast.GeneratorExp, ast.ListComp)):
+            g_ = n.args[0]
+            if len(g_.generators) == 1 and not g_.generators[0].ifs and not g_.generators[0].is_async and isinstance(g_.generators[0].target, ast.Name) \
+                    and isinstance(g_.generators[0].iter, (ast.List, ast.Tuple)) and 1 <= len(g_.generators[0].iter.elts) <= 4 \
+                    and all(_is_path(e_) for e_ in g_.generators[0].iter.elts) \
+                    and (isinstance(g_.elt, ast.Compare) or (isinstance(g_.elt, ast.UnaryOp) and isinstance(g_.elt.op, ast.Not))) \
+                    and not any(isinstance(x_, (ast.Call, ast.NamedExpr, ast.Await, ast.Yield, ast.Lambda)) for x_ in ast.walk(g_.elt)):
+                x_ = g_.generators[0].target.id
+                parts = [_Sub({x_: copy.deepcopy(e_)}, {}).visit(copy.deepcopy(g_.elt)) for e_ in g_.generators[0].iter.elts]
+                self.changed = True
+                new = parts[0] if len(parts) == 1 else ast.BoolOp(op=ast.Or() if n.func.id == "any" else ast.And(), values=parts)
+                return self.visit(ast.copy_location(new, n))
         # "{kind}_{field}".format(kind="sample", field="ids") / MODULE_CONSTANT.format(..) with constant arguments
         if isinstance(n.func, ast.Attribute) and n.func.attr == "format" and all(isinstance(a_, ast.Constant) for a_ in n.args) \
                 and all(k_.arg is not None and isinstance(k_.value, ast.Constant) for k_ in n.keywords):
@@ -294,6 +317,12 @@ class Fold(ast.NodeTransformer):
             return n
         a, b = _const_value(n.left), _const_value(n.comparators[0])
         op = n.ops[0]
+        # P is P / P is not P  for a name or a plain data attribute path (no property or method of that name anywhere in the repository)
+        if self.repo is not None and isinstance(op, (ast.Is, ast.IsNot)) and U(n.left) == U(n.comparators[0]) and _is_path(n.left):
+            attrs = [x_.attr for x_ in ast.walk(n.left) if isinstance(x_, ast.Attribute)]
+            if all(not self.repo.methods_named(a_) for a_ in attrs):
+                self.changed = True
+                return ast.copy_location(ast.Constant(value=isinstance(op, ast.Is)), n)
         # NAME is None / is not None  for a local bound once to a value that cannot be None
         if self.repo is not None and isinstance(op, (ast.Is, ast.IsNot)) and isinstance(n.left, ast.Name) and b[0] and b[1] is None:
             if n.left.id in self._nonnull():
@@ -348,16 +377,25 @@ class Fold(ast.NodeTransformer):
         vals = []
         for v in n.values:
             if isinstance(v, ast.Constant) and isinstance(v.value, bool):
+                # the operands before an absorbing constant are still evaluated: they are dropped only when they are plain tests
+                # (comparisons / negations over names, attributes, subscripts and len(..)), whose value is a bool and which have no effect
+                plain = all((isinstance(x, ast.Compare) or (isinstance(x, ast.UnaryOp) and isinstance(x.op, ast.Not)))
+                            and not any(isinstance(y, (ast.NamedExpr, ast.Await, ast.Yield, ast.YieldFrom, ast.Lambda)) or (isinstance(y, ast.Call) and U(y.func) != "len")
+                                        for y in ast.walk(x)) for x in vals)
                 if isinstance(n.op, ast.And):
                     if v.value is False:
-                        self.changed = True
-                        return ast.copy_location(ast.Constant(value=False), n) if not vals else n
+                        if not vals or plain:
+                            self.changed = True
+                            return ast.copy_location(ast.Constant(value=False), n)
+                        return n
                     self.changed = True
                     continue
                 else:
                     if v.value is True:
-                        self.changed = True
-                        return ast.copy_location(ast.Constant(value=True), n) if not vals else n
+                        if not vals or plain:
+                            self.changed = True
+                            return ast.copy_location(ast.Constant(value=True), n)
+                        return n
                     self.changed = True
                     continue
             vals.append(v)
@@ -423,6 +461,16 @@ class Fold(ast.NodeTransformer):
                 if els:
                     n.value = ast.Tuple(elts=els, ctx=ast.Load())
                     self.changed = True
+        return n
+
+    def visit_Assign(self, n):
+        self.generic_visit(n)
+        # a, b, c = K(x, y, z)   with K a NamedTuple record: the display of its arguments is unpacked
+        if len(n.targets) == 1 and isinstance(n.targets[0], (ast.Tuple, ast.List)) and not any(isinstance(t, ast.Starred) for t in n.targets[0].elts):
+            d = self._record_display(n.value)
+            if d is not None and len(d.elts) == len(n.targets[0].elts):
+                n.value = d
+                self.changed = True
         return n
 
     def visit_For(self, n):
@@ -2495,6 +2543,114 @@ def sink_optional_uses_into_arms(fnode, counter):
     return changed
 
 
+def sink_exit_test_into_arms(fnode):
+    """T; if v is None: <exit>; REST        at the top level of the function, T an if-tree whose every fall-through leaf ends in a
+    binding of v - the constant None in some leaf, a value that cannot be None (a construction, a display) in the others
+    ->  `if v is None: <exit>; REST` is appended to every leaf, where the test is then decided.  The leaves are exclusive and the moved
+    statements ran right after them: plain code motion.  (The shape left by splicing a helper that returns `None` early and a record
+    otherwise, in front of the caller's own `nothing to do` exit.)  merge_duplicated_tails undoes the duplication afterwards."""
+    body = fnode.body
+    for i, st in enumerate(body[:-1]):
+        nxt = body[i + 1]
+        if not isinstance(st, ast.If) or not isinstance(nxt, ast.If):
+            continue
+        t = nxt.test
+        if isinstance(t, ast.UnaryOp) and isinstance(t.op, ast.Not):
+            t = t.operand
+        if isinstance(t, ast.Compare) and len(t.ops) == 1 and isinstance(t.ops[0], (ast.Is, ast.IsNot)) and U(t.comparators[0]) == "None":
+            t = t.left
+        if not isinstance(t, ast.Name):
+            continue
+        v = t.id
+        leaves = []
+
+        def collect(block):
+            if not block:
+                return False
+            last = block[-1]
+            if isinstance(last, (ast.Return, ast.Raise)):
+                return True
+            if isinstance(last, ast.If):
+                if not last.orelse:
+                    return False
+                return collect(last.body) and collect(last.orelse)
+            if isinstance(last, ast.Assign) and len(last.targets) == 1 and isinstance(last.targets[0], ast.Name) and last.targets[0].id == v:
+                leaves.append(block)
+                return True
+            return False
+        if not st.orelse or not collect([st]) or not (2 <= len(leaves) <= 4):
+            continue
+        vals = [b[-1].value for b in leaves]
+        is_none = [isinstance(x, ast.Constant) and x.value is None for x in vals]
+        if not any(is_none) or not all(n_ or isinstance(x, (ast.List, ast.Tuple, ast.Dict)) or (isinstance(x, ast.Call) and _nonnull_call(x)) for n_, x in zip(is_none, vals)):
+            continue
+        rest = body[i + 1:]
+        if sum(len(list(ast.walk(x))) for x in rest) * len(leaves) > 4000:
+            continue
+        for b in leaves:
+            b.extend(copy.deepcopy(x) for x in rest)
+        del body[i + 1:]
+        ast.fix_missing_locations(fnode)
+        return True
+    return False
+
+
+def merge_duplicated_tails(fnode):
+    """the inverse of early-return elimination, on the function's last statement: `if c: A; <exit> else: B` -> `if c: A; <exit>` B, and
+    `if c: A; S else: S` -> `if c: A` S   (S the whole else arm, textually the arm's own suffix).  Both arms run S next in either form."""
+    changed = False
+
+    def exits(block):
+        if not block:
+            return False
+        last = block[-1]
+        if isinstance(last, (ast.Return, ast.Raise)):
+            return True
+        if isinstance(last, ast.If):
+            return exits(last.body) and exits(last.orelse)
+        return False
+
+    def untail(block):
+        nonlocal changed
+        if not block or not isinstance(block[-1], ast.If):
+            return block
+        st = block[-1]
+        st.body, st.orelse = untail(st.body), untail(st.orelse)
+        b, o = st.body, st.orelse
+        if o and len(o) <= len(b) and all(U(x) == U(y) for x, y in zip(b[len(b) - len(o):], o)) and len(b) > len(o):
+            st.body, st.orelse = b[:len(b) - len(o)], []
+            changed = True
+            return block[:-1] + [st] + o
+        if o and exits(b) and not (len(o) == 1 and isinstance(o[0], ast.If)):
+            st.orelse = []
+            changed = True
+            return untail(block[:-1] + [st] + o) if isinstance(o[-1], ast.If) else block[:-1] + [st] + o
+        return block
+    fnode.body = untail(fnode.body)
+
+    def dead_stores(block):
+        # v = <constant>; return X / raise X   (X does not mention the local v, no closure reads it): the store is dead
+        nonlocal changed
+        k = 0
+        while k + 1 < len(block):
+            a_, b_ = block[k], block[k + 1]
+            if isinstance(a_, ast.Assign) and len(a_.targets) == 1 and isinstance(a_.targets[0], ast.Name) and isinstance(a_.value, ast.Constant) \
+                    and isinstance(b_, (ast.Return, ast.Raise)) and a_.targets[0].id not in _CAPTURED \
+                    and not any(isinstance(x, ast.Name) and x.id == a_.targets[0].id for x in ast.walk(b_)):
+                del block[k]
+                changed = True
+                continue
+            k += 1
+        for st in block:
+            if isinstance(st, ast.If):
+                dead_stores(st.body)
+                dead_stores(st.orelse)
+    if changed:
+        dead_stores(fnode.body)
+        ast.fix_missing_locations(fnode)
+    return changed
+
+
 def forward_none_tests(stmts, known=None):
     """walk a statement list top-down remembering which names hold None / a non-None value, and decide `x is None` /
     `x is not None` tests that follow (straight-line only: loops and tries forget what they assign)"""
@@ -2825,6 +2981,316 @@ def loops_over_generator_expressions(fnode, counter):
         return out
     fnode.body = rewrite(fnode.body)
     return changed
+
+
+_PURE_CALL_PREFIXES = ("math.", "np.", "numpy.")
+_PURE_CALL_NAMES = {"len", "int", "float", "abs", "min", "max", "round", "str", "bool", "tuple"}
+
+
+def loops_over_zipped_comprehensions(fnode, counter):
+    """A = [E1(p) for p in IT if C]; B = [E2(q) for q in IT if C]; for a, b in zip(A, B): BODY      (A, B bound once, used in this zip only; the
+    same iterable and - up to the variable's name - the same filter; E1, E2, C free of calls other than arithmetic helpers; BODY stores into
+    nothing the comprehensions read)   ->   for p in IT: [if C:] a = E1(p); b = E2(p); BODY
+    Lists built with different filters are left alone: their items are not those of one element of IT (the rules report that)."""
+    changed = False
+    binds, mentions = {}, {}
+    for x in ast.walk(fnode):
+        if isinstance(x, ast.Name):
+            mentions[x.id] = mentions.get(x.id, 0) + 1
+            if isinstance(x.ctx, (ast.Store, ast.Del)):
+                binds[x.id] = binds.get(x.id, 0) + 1
+    params = {a_.arg for a_ in fnode.args.posonlyargs + fnode.args.args + fnode.args.kwonlyargs}
+
+    def pure(e):
+        for x in ast.walk(e):
+            if isinstance(x, ast.Call):
+                fn_ = U(x.func)
+                if not (fn_ in _PURE_CALL_NAMES or fn_.startswith(_PURE_CALL_PREFIXES)):
+                    return False
+            if isinstance(x, (ast.NamedExpr, ast.Await, ast.Yield, ast.YieldFrom, ast.Lambda)):
+                return False
+        return True
+
+    def rewrite(stmts):
+        nonlocal changed
+        for st in stmts:
+            for fld in ("body", "orelse", "finalbody"):
+                sub = getattr(st, fld, None)
+                if isinstance(sub, list) and sub and isinstance(sub[0], ast.stmt) and not isinstance(st, (ast.FunctionDef, ast.AsyncFunctionDef, ast.ClassDef)):
+                    setattr(st, fld, rewrite(sub))
+        for i, st in enumerate(stmts):
+            if not (isinstance(st, ast.For) and not st.orelse and isinstance(st.iter, ast.Call) and U(st.iter.func) == "zip" and len(st.iter.args) >= 2 and not st.iter.keywords
+                    and all(isinstance(a_, ast.Name) for a_ in st.iter.args) and isinstance(st.target, ast.Tuple) and len(st.target.elts) == len(st.iter.args)
+                    and all(isinstance(t_, ast.Name) for t_ in st.target.elts)):
+                continue
+            defs = []
+            for a_ in st.iter.args:
+                d_ = [x for x in stmts[:i] if isinstance(x, ast.Assign) and len(x.targets) == 1 and isinstance(x.targets[0], ast.Name) and x.targets[0].id == a_.id]
+                if len(d_) != 1 or binds.get(a_.id) != 1 or mentions.get(a_.id) != 2 or a_.id in _CAPTURED or not isinstance(d_[0].value, ast.ListComp) \
+                        or len(d_[0].value.generators) != 1 or d_[0].value.generators[0].is_async or not isinstance(d_[0].value.generators[0].target, ast.Name):
+                    defs = None
+                    break
+                defs.append(d_[0])
+            if not defs or len({a_.id for a_ in st.iter.args}) != len(st.iter.args):
+                continue
+            gens = [d_.value.generators[0] for d_ in defs]
+            it = U(gens[0].iter)
+            if any(U(g_.iter) != it for g_ in gens) or not _is_path(gens[0].iter):
+                continue
+            it_names = {x.id for x in ast.walk(gens[0].iter) if isinstance(x, ast.Name)}
+            if any(binds.get(n_, 0) > (0 if n_ in params else 1) for n_ in it_names):
+                continue
+            k = counter[0]
+            v = f"item__z{k}"
+            parts = []
+            for d_, g_ in zip(defs, gens):
+                ren = _Sub({}, {g_.target.id: v})
+                parts.append((ren.visit(copy.deepcopy(d_.value.elt)), [ren.visit(copy.deepcopy(c_)) for c_ in g_.ifs]))
+            if any([U(c_) for c_ in ifs_] != [U(c_) for c_ in parts[0][1]] for _, ifs_ in parts):
+                continue                # different filters: the lists are not aligned element by element
+            if not all(pure(e_) and all(pure(c_) for c_ in ifs_) for e_, ifs_ in parts):
+                continue
+            read = it_names | {x.id for e_, ifs_ in parts for y in [e_] + ifs_ for x in ast.walk(y) if isinstance(x, ast.Name)} - {v}
+            stored = set()
+            for b_ in st.body:
+                for x in ast.walk(b_):
+                    if isinstance(x, (ast.Assign, ast.AugAssign, ast.AnnAssign, ast.For)):
+                        for t_ in (x.targets if isinstance(x, ast.Assign) else [x.target]):
+                            r_ = t_
+                            while isinstance(r_, (ast.Subscript, ast.Attribute)):
+                                r_ = r_.value
+                            for y in ast.walk(r_ if isinstance(r_, ast.Name) else t_):
+                                if isinstance(y, ast.Name):
+                                    stored.add(y.id)
+            if stored & read:
+                continue
+            counter[0] += 1
+            same = [t_.id for t_, (e_, _) in zip(st.target.elts, parts) if isinstance(e_, ast.Name) and e_.id == v]
+            if same and same[0] not in read and mentions.get(same[0], 0) == sum(1 for b_ in [st.target] + st.body for x in ast.walk(b_) if isinstance(x, ast.Name) and x.id == same[0]):
+                # one of the lists holds the elements themselves: its loop variable is the element
+                ren = _Sub({}, {v: same[0]})
+                parts = [(ren.visit(e_), [ren.visit(c_) for c_ in ifs_]) for e_, ifs_ in parts]
+                v = same[0]
+            body = [ast.Assign(targets=[ast.Name(id=t_.id, ctx=ast.Store())], value=e_, lineno=st.lineno, col_offset=0) for t_, (e_, _) in zip(st.target.elts, parts)
+                    if not (isinstance(e_, ast.Name) and e_.id == t_.id)] + st.body
+            for c_ in reversed(parts[0][1]):
+                body = [ast.If(test=c_, body=body, orelse=[], lineno=st.lineno, col_offset=0)]
+            new = ast.For(target=ast.Name(id=v, ctx=ast.Store()), iter=copy.deepcopy(gens[0].iter), body=body, orelse=[], lineno=st.lineno, col_offset=0)
+            ast.fix_missing_locations(new)
+            out = [x for x in stmts[:i] if not any(x is d_ for d_ in defs)] + [new] + stmts[i + 1:]
+            changed = True
+            return rewrite(out)
+        return stmts
+    fnode.body = rewrite(fnode.body)
+    return changed
+
+
+def split_record_lists(repo, f):
+    """L = []; .. L.append(K(a=x, b=y)) ..; [r.a for r in L]     (L bound once; K a plain record; every other mention of L is such an append,
+    a projection comprehension over L without filter, or len(L))
+    ->  L__a = []; L__b = []; .. L__a.append(x); L__b.append(y) ..; L__a         (a list of records read field by field is one list per field)"""
+    from .normalize import record_fields
+    fnode = f.node
+    changed = False
+    binds = {}
+    for x in ast.walk(fnode):
+        if isinstance(x, ast.Name) and isinstance(x.ctx, (ast.Store, ast.Del)):
+            binds[x.id] = binds.get(x.id, 0) + 1
+    par = {}
+    for n in ast.walk(fnode):
+        for c in ast.iter_child_nodes(n):
+            par[c] = n
+    inits = [st for st in walk_own(fnode) if isinstance(st, ast.Assign) and len(st.targets) == 1 and isinstance(st.targets[0], ast.Name) and isinstance(st.value, ast.List)
+             and not st.value.elts and binds.get(st.targets[0].id) == 1 and st.targets[0].id not in _CAPTURED]
+    for init in inits:
+        L = init.targets[0].id
+        appends, projs, lens, ok = [], [], [], True
+        fields = None
+        for x in ast.walk(fnode):
+            if not (isinstance(x, ast.Name) and x.id == L) or x is init.targets[0]:
+                continue
+            p_ = par.get(x)
+            pp = par.get(p_)
+            if isinstance(p_, ast.Attribute) and p_.attr == "append" and isinstance(pp, ast.Call) and pp.func is p_ and len(pp.args) == 1 and not pp.keywords \
+                    and isinstance(par.get(pp), ast.Expr) and isinstance(pp.args[0], ast.Call) and isinstance(pp.args[0].func, ast.Name):
+                rec = pp.args[0]
+                fl = record_fields(repo, f.mod, rec.func.id)
+                if fl is None or (fields is not None and fl != fields) or any(isinstance(a_, ast.Starred) for a_ in rec.args) or any(k_.arg is None for k_ in rec.keywords) \
+                        or len(rec.args) + len(rec.keywords) != len(fl):
+                    ok = False
+                    break
+                fields = fl
+                appends.append((par.get(pp), rec))
+            elif isinstance(p_, ast.comprehension) and p_.iter is x and not p_.ifs and isinstance(p_.target, ast.Name) and isinstance(pp, (ast.ListComp, ast.GeneratorExp)) \
+                    and len(pp.generators) == 1 and isinstance(pp.elt, ast.Attribute) and isinstance(pp.elt.value, ast.Name) and pp.elt.value.id == p_.target.id:
+                projs.append(pp)
+            elif isinstance(p_, ast.Call) and U(p_.func) == "len" and len(p_.args) == 1:
+                lens.append(p_)
+            else:
+                ok = False
+                break
+        if not ok or not appends or not projs or fields is None or any(pr.elt.attr not in fields for pr in projs):
+            continue
+        names = {fl: f"{L}__{fl}" for fl in fields}
+        if any(nm in binds for nm in names.values()):
+            continue
+        for st_, rec in appends:
+            vals = dict(zip(fields, rec.args))
+            vals.update({k_.arg: k_.value for k_ in rec.keywords})
+            if set(vals) != set(fields):
+                ok = False
+        if not ok:
+            continue
+
+        def replace_stmt(old, new_list):
+            owner = par.get(old)
+            for fld in ("body", "orelse", "finalbody"):
+                lst = getattr(owner, fld, None)
+                if isinstance(lst, list) and any(y is old for y in lst):
+                    i_ = [k for k, y in enumerate(lst) if y is old][0]
+                    lst[i_:i_ + 1] = new_list
+                    return True
+            return False
+        for st_, rec in appends:
+            vals = dict(zip(fields, rec.args))
+            vals.update({k_.arg: k_.value for k_ in rec.keywords})
+            new = [ast.Expr(value=ast.Call(func=ast.Attribute(value=ast.Name(id=names[fl], ctx=ast.Load()), attr="append", ctx=ast.Load()), args=[vals[fl]], keywords=[])) for fl in fields]
+            replace_stmt(st_, new)
+        replace_stmt(init, [ast.Assign(targets=[ast.Name(id=names[fl], ctx=ast.Store())], value=ast.List(elts=[], ctx=ast.Load()), lineno=init.lineno, col_offset=0) for fl in fields])
+
+        class R(ast.NodeTransformer):
+            def visit_ListComp(self, n):
+                if any(n is pr for pr in projs):
+                    return ast.copy_location(ast.Name(id=names[n.elt.attr], ctx=ast.Load()), n)
+                return self.generic_visit(n)
+            visit_GeneratorExp = visit_ListComp
+
+            def visit_Call(self, n):
+                if any(n is ln for ln in lens):
+                    n.args = [ast.Name(id=names[fields[0]], ctx=ast.Load())]
+                    return n
+                return self.generic_visit(n)
+        f.node = R().visit(fnode)
+        ast.fix_missing_locations(f.node)
+        return True
+    return changed
+
+
+def scalarise_conditional_records(repo, f):
+    """t = K(a=x1, b=y1) if c else K(a=x2, b=y2)      (t bound once, read only as t.a / t.b; K a plain record; nested conditionals likewise)
+    ->  if c: t__a = x1; t__b = y1  else: t__a = x2; t__b = y2       and every t.a reads t__a.
+    `A if c else (B if not c else C)` is first reduced to `A if c else B`.  A display of such records that nothing reads is dropped."""
+    from .normalize import record_fields
+    fnode = f.node
+    binds, loads = {}, {}
+    par = {}
+    for n in ast.walk(fnode):
+        for c in ast.iter_child_nodes(n):
+            par[c] = n
+        if isinstance(n, ast.Name):
+            if isinstance(n.ctx, (ast.Store, ast.Del)):
+                binds[n.id] = binds.get(n.id, 0) + 1
+            else:
+                loads.setdefault(n.id, []).append(n)
+
+    def reduce_(e):
+        if isinstance(e, ast.IfExp):
+            e.body, e.orelse = reduce_(e.body), reduce_(e.orelse)
+            o = e.orelse
+            if isinstance(o, ast.IfExp):
+                t1, t2 = U(e.test), U(o.test)
+                if t2 in (f"not {t1}", f"not ({t1})") or t1 in (f"not {t2}", f"not ({t2})"):
+                    e.orelse = o.body           # reached only when the outer test failed: the inner `not test` holds
+                elif t1 == t2 and not any(isinstance(x, (ast.Call, ast.NamedExpr)) for x in ast.walk(e.test) if not (isinstance(x, ast.Call) and U(x.func) == "len")):
+                    e.orelse = o.orelse
+        return e
+
+    def leaves(e):
+        if isinstance(e, ast.IfExp):
+            return leaves(e.body) + leaves(e.orelse)
+        return [e]
+    for st in list(walk_own(fnode)):
+        if not (isinstance(st, ast.Assign) and len(st.targets) == 1 and isinstance(st.targets[0], ast.Name) and isinstance(st.value, ast.IfExp)):
+            continue
+        t = st.targets[0].id
+        if binds.get(t) != 1 or t in _CAPTURED:
+            continue
+        val = reduce_(copy.deepcopy(st.value))
+        ls = leaves(val)
+        if not all(isinstance(x, ast.Call) and isinstance(x.func, ast.Name) for x in ls) or len({x.func.id for x in ls}) != 1:
+            continue
+        fields = record_fields(repo, f.mod, ls[0].func.id)
+        if fields is None:
+            continue
+        vals = []
+        for x in ls:
+            if any(isinstance(a_, ast.Starred) for a_ in x.args) or any(k_.arg is None for k_ in x.keywords) or len(x.args) + len(x.keywords) != len(fields):
+                vals = None
+                break
+            d_ = dict(zip(fields, x.args))
+            d_.update({k_.arg: k_.value for k_ in x.keywords})
+            if set(d_) != set(fields):
+                vals = None
+                break
+            vals.append(d_)
+        if vals is None:
+            continue
+        dead = []
+        ok = True
+        for ld in loads.get(t, []):
+            p_ = par.get(ld)
+            if isinstance(p_, ast.Attribute) and p_.value is ld and p_.attr in fields and isinstance(p_.ctx, ast.Load):
+                continue
+            # an element of a display bound to a name nothing reads
+            if isinstance(p_, (ast.List, ast.Tuple)) and isinstance(par.get(p_), ast.Assign) and len(par[p_].targets) == 1 and isinstance(par[p_].targets[0], ast.Name) \
+                    and not loads.get(par[p_].targets[0].id) and binds.get(par[p_].targets[0].id) == 1 and par[p_].targets[0].id not in _CAPTURED \
+                    and all(isinstance(e_, ast.Name) for e_ in p_.elts):
+                dead.append(par[p_])
+                continue
+            ok = False
+            break
+        names = {fl: f"{t}__{fl}" for fl in fields}
+        if not ok or any(nm in binds for nm in names.values()):
+            continue
+        it = iter(vals)
+        # a field that is the same name in every arm needs no copy per arm: t.f reads that name
+        # (bound once, or - a parameter - never: it cannot change between the record's construction and the read)
+        params_ = {a_.arg for a_ in fnode.args.posonlyargs + fnode.args.args + fnode.args.kwonlyargs}
+        common = {fl: vals[0][fl].id for fl in fields if all(isinstance(d_[fl], ast.Name) for d_ in vals) and len({d_[fl].id for d_ in vals}) == 1
+                  and binds.get(vals[0][fl].id, 0) == (0 if vals[0][fl].id in params_ else 1)}
+        for fl, nm in common.items():
+            names[fl] = nm
+
+        def build(e):
+            if isinstance(e, ast.IfExp):
+                return [ast.If(test=e.test, body=build(e.body), orelse=build(e.orelse), lineno=st.lineno, col_offset=0)]
+            d_ = next(it)
+            return [ast.Assign(targets=[ast.Name(id=names[fl], ctx=ast.Store())], value=d_[fl], lineno=st.lineno, col_offset=0) for fl in fields if fl not in common]
+        new = build(val)
+
+        def replace_stmt(old, new_list):
+            owner = par.get(old)
+            for fld in ("body", "orelse", "finalbody"):
+                lst = getattr(owner, fld, None)
+                if isinstance(lst, list) and any(y is old for y in lst):
+                    i_ = [k for k, y in enumerate(lst) if y is old][0]
+                    lst[i_:i_ + 1] = new_list
+                    return True
+            return False
+        if not replace_stmt(st, new):
+            continue
+        for d_ in {id(x): x for x in dead}.values():
+            replace_stmt(d_, [])
+
+        class R(ast.NodeTransformer):
+            def visit_Attribute(self, n):
+                if isinstance(n.value, ast.Name) and n.value.id == t and n.attr in fields and isinstance(n.ctx, ast.Load):
+                    return ast.copy_location(ast.Name(id=names[n.attr], ctx=ast.Load()), n)
+                return self.generic_visit(n)
+        f.node = R().visit(fnode)
+        ast.fix_missing_locations(f.node)
+        return True
+    return False
 
 
 def star_unpack_of_lists(fnode):
@@ -3559,13 +4025,19 @@ def has_constant_structure(repo, f):
     return False
 
 
+def _zips_comprehension_locals(fnode):
+    comp_locals = {x.targets[0].id for x in walk_own(fnode) if isinstance(x, ast.Assign) and len(x.targets) == 1 and isinstance(x.targets[0], ast.Name) and isinstance(x.value, ast.ListComp)}
+    return bool(comp_locals) and any(isinstance(x, ast.For) and isinstance(x.iter, ast.Call) and U(x.iter.func) == "zip" and len(x.iter.args) >= 2
+                                     and all(isinstance(a_, ast.Name) and a_.id in comp_locals for a_ in x.iter.args) for x in walk_own(fnode))
+
+
 def partial_evaluate(repo, max_rounds=8):
     from .inliner import simplify
     from .normalize import simplify_lists
     report = {}
     counter = [0]
     for q, f in list(repo.funcs.items()):
-        if not has_constant_structure(repo, f) and not _calls_new_helper(repo, f) and q not in getattr(repo, "inlined", {}):
+        if not has_constant_structure(repo, f) and not _calls_new_helper(repo, f) and q not in getattr(repo, "inlined", {}) and not _zips_comprehension_locals(f.node):
             continue
         steps = []
         for _ in range(max_rounds):
@@ -3582,6 +4054,9 @@ def partial_evaluate(repo, max_rounds=8):
             if steps and loops_over_generator_expressions(f.node, counter):
                 ch = True
                 steps.append("genexp-loops")
+            if (steps or q in getattr(repo, "inlined", {}) or _zips_comprehension_locals(f.node)) and loops_over_zipped_comprehensions(f.node, counter):
+                ch = True
+                steps.append("zipped-comprehensions")
             if star_unpack_of_lists(f.node):
                 ch = True
                 steps.append("star-unpack")
@@ -3609,6 +4084,12 @@ def partial_evaluate(repo, max_rounds=8):
             if unstar_record_constructions(repo, f, counter):
                 ch = True
                 steps.append("unstar-records")
+            if (steps or q in getattr(repo, "inlined", {})) and scalarise_conditional_records(repo, f):
+                ch = True
+                steps.append("conditional-records")
+            if (steps or q in getattr(repo, "inlined", {})) and split_record_lists(repo, f):
+                ch = True
+                steps.append("record-lists")
             if propagate_record_locals(repo, f):
                 ch = True
                 steps.append("records")
@@ -3647,6 +4128,9 @@ def partial_evaluate(repo, max_rounds=8):
             if (steps or q in getattr(repo, "inlined", {})) and sink_optional_uses_into_arms(f.node, counter):
                 ch = True
                 steps.append("optionals-per-arm")
+            if q in getattr(repo, "inlined", {}) and "exit-test-per-arm" not in steps and sink_exit_test_into_arms(f.node):
+                ch = True
+                steps.append("exit-test-per-arm")
             if sink_callable_uses_into_arms(f.node, counter):
                 ch = True
                 steps.append("callables-per-arm")
@@ -3673,6 +4157,9 @@ def partial_evaluate(repo, max_rounds=8):
                 if c4:
                     ch = True
                     steps.append("none-tests")
+            if "exit-test-per-arm" in steps and "none-tests" in steps and merge_duplicated_tails(f.node):
+                ch = True
+                steps.append("merge-tails")
             body, c3 = undefer_raises(f.node.body)
             f.node.body = body
             if c3:
